@@ -85,6 +85,17 @@ CHECKS = {
                      "pairwise-complete crosses with the other regions is decoded by a C program using <linux/xfrm.h> "
                      "and compared field by field with the intent; ACQUIRE / EXPIRE / ack / error frames encoded with "
                      "the kernel structures are decoded by Xfrm.parse_message / send_recv and compared."),
+    'C12': dict(level='exploration', technique=EX,
+                text="All 360 000 ordered selector pairs of a small IPv4/IPv6 universe for is_subset against packet-set "
+                     "inclusion; every CIDR block of a /28 and /124 for the network conversions; _get_ipsec_configuration "
+                     "on all TS lists of length <= 2 against all 1- and 2-entry policies; thousands of real handshakes "
+                     "over network / port / protocol / mode relations judged on the selectors inside XFRM_MSG_NEWSA of "
+                     "both model kernels; rekeys; 420 tampered responses re-protected with the responder's keys."),
+    'C19': dict(level='exploration', technique=EX + " (all k-deviation inputs)",
+                text="64 valid base dictionaries x every single deviation (quick) / every pair (thorough) of missing "
+                     "keys and ill-typed / out-of-range / unknown values at connection, auth and protect-entry level: "
+                     "Configuration() either raises ConfigurationError or loads; well-typed loads are compared field by "
+                     "field with an independent reading (ref/confread.py)."),
 }
 
 # filled in as checks are built; anything in ALL but not in CHECKS is listed under not_applicable
